@@ -1782,7 +1782,8 @@ def unit_topn(inj, scratch):
     uses = [s.text[m.start():m.end()] for m in re.finditer(r'^use\s+[^;]+;', s.mask[:st['start']], flags=re.M)]
     uses = [u for u in uses if 'BTreeMap' not in u]
     body = '\n'.join(uses) + '\n' + s.text[st['start']:st['end']] + '\n\n' + s.text[im['start']:im['end']]
-    text = 'pub mod topn {\n' + H('frag_topn_prelude.rs') + '\n// ---- verbatim: struct TopN and impl TopN from src/util/top_n.rs ----\n' + body + '\n' + H('frag_topn.kani.rs') + '\n}\n'
+    # the stand-ins named Vec / BTreeMap live in an inner module, so that the harnesses (and a replay test Kani generates next to them) see the std types
+    text = 'pub mod topn {\npub mod world {\n' + H('frag_topn_prelude.rs') + '\n// ---- verbatim: struct TopN and impl TopN from src/util/top_n.rs ----\n' + body + '\n}\nuse self::world::TopN;\n' + H('frag_topn.kani.rs') + '\n}\n'
     inj.new_file(FRAG_FILE, text)
     r, d = frag_record('topn::TopN', 'src/util/top_n.rs', 'struct TopN + impl<K: Ord, V> TopN<K, V> (whole items, verbatim)', body, body,
                        ['std::collections::BTreeMap and Vec -> fixed-capacity array-backed stand-ins with the std method names (new, entry().or_default(), iter(), remove, insert, values, last_key_value, pop_last; push, pop, is_empty, iter, collect)'],
